@@ -13,7 +13,7 @@ RULE = ("INPUTMODE correspondence: all class/id pairs of message ids + all 256 i
         "65536) x frame lengths 8..12 and longer; MODETABLE (the Coq length analysis of every SET/POLL definition) vs the "
         "recorded ambiguities; search on the implementation: every SET and POLL definition x conforming payloads (counts "
         "0,1,2; incl. empty and 1-2 byte payloads) and keyword-built messages: parse(serialize, SETPOLL) == "
-        "parse(serialize, true mode) in mode, identity and attributes. non-trivial = distinct (definition, length).")
+        "parse(serialize, true mode) in mode, identity and attributes, both through the static parse and through a reader instance created with msgmode=SETPOLL over streams interleaving those messages with NMEA/RTCM3 frames. non-trivial = distinct (definition, length).")
 
 
 def attrs(m):
@@ -45,6 +45,7 @@ def run(ctx):
             ctx.fail("definition-lengths-ambiguous", {"op": "MODETABLE", "entry": e}, "getinputmode gives the definition's mode for all its lengths", e)
     # ---- search on the implementation ----
     n = 0
+    good = []
     for mode, name, d, key in msggen.all_defs():
         if mode == 0:
             continue
@@ -86,8 +87,55 @@ def run(ctx):
             if sp.msgmode != mode or sp.identity != ref.identity or attrs(sp) != attrs(ref):
                 ctx.fail("setpoll-differs", inp, "mode %d, %s" % (mode, ref.identity), "mode %d, %s" % (sp.msgmode, sp.identity))
                 ctx.failures[-1]["frame"] = (key, mode, len(f))
+            else:
+                good.append((f, ref, name, mode))
     ctx.evaluations += n
     ctx.count("setpoll_cases", n)
+    reader_level(ctx, rng, good)
+
+
+def reader_level(ctx, rng, good):
+    """The same statement through a reader INSTANCE: UBXReader(stream, msgmode=SETPOLL) over streams that interleave
+    the generated SET and POLL messages with each other and with NMEA / RTCM3 traffic (state kept by the reader
+    between frames must not change how the next frame's mode is resolved)."""
+    import io
+    import readerlib as rl
+    others = [f for k, f in rl.frame_pool() if k in ("nmea", "nmeaP", "rtcm", "nmeabad")]
+    others += [rl.nmea(b"IGNQ,RMC", talker=b"E"), rl.nmea(b"UBX,40,GLL,0,0,0,0,0,0", talker=b"P")]
+    rng.shuffle(good)
+    sample = good[: (400 if ctx.quick() else 4000)]
+    nrd = 0
+    for i in range(0, len(sample), 6):
+        grp = sample[i:i + 6]
+        parts = []
+        for j, (f, ref, name, mode) in enumerate(grp):
+            if j % 2 == 0:
+                parts.append((None, rng.choice(others)))
+            parts.append(((ref, name, mode), f))
+        stream = b"".join(p for _, p in parts)
+        for qe in (0,):
+            try:
+                with impl.quiet():
+                    items = [(bytes(r), p) for r, p in UBXReader(io.BytesIO(stream), msgmode=3, quitonerror=qe)]
+            except Exception as e:  # pylint: disable=broad-except
+                ctx.fail("setpoll-reader-raises", {"op": "READ-SETPOLL", "stream": stream[:200].hex()}, "iteration", type(e).__name__)
+                continue
+            ubx = [(r, p) for r, p in items if r[0:2] == b"\xb5\x62"]
+            want = [(f, meta) for meta, f in parts if meta is not None]
+            nrd += len(want)
+            if [r for r, _ in ubx] != [f for f, _ in want]:
+                ctx.fail("setpoll-reader-frames", {"op": "READ-SETPOLL", "stream": stream[:300].hex()},
+                         "%d UBX frames" % len(want), "%d UBX frames" % len(ubx))
+                continue
+            for (r, p), (f, (ref, name, mode)) in zip(ubx, want):
+                if p is None or p.msgmode != mode or p.identity != ref.identity or attrs(p) != attrs(ref):
+                    ctx.fail("setpoll-reader-differs", {"op": "READ-SETPOLL", "name": name, "mode": mode, "stream": stream[:300].hex(),
+                                                        "frame": f[:80].hex()},
+                             "mode %d, %s" % (mode, ref.identity),
+                             "None" if p is None else "mode %d, %s" % (p.msgmode, p.identity))
+                    break
+    ctx.evaluations += nrd
+    ctx.count("setpoll_reader_frames", nrd)
 
 
 def c16_nominal(d, name):
